@@ -112,7 +112,7 @@ func c31(c *core.Ctx) {
 	}
 	c.Rule("C31.write", "every call of (*Node).SetAttribute reachable from a service request is dominated by the true result of Access(CurrentWrite) on the same node", 1)
 	c.Rule("C31.read", "every read of a node's value storage reachable from a service request — (*Node).Attribute with an attribute id that may be Value, (*Node).Value, or a call of the val function — is dominated by the true result of Access(CurrentRead) on the same node (the accessors themselves and nodes built in place with a nil value function carry no obligation)", 2)
-	c.Rule("C31.failclosed", "Node.Access returns true only if, for each of UserAccessLevel and AccessLevel, the attribute is absent (err != nil) or its uint8 value has the flag bit set; a present attribute of another Go type yields false", 2)
+	c.Rule("C31.failclosed", "Node.Access returns true only if, for each of UserAccessLevel and AccessLevel, the attribute is absent (err != nil) or its uint8 value has the flag bit set; a present attribute of another Go type yields false (also when the lookup lives in a helper of Access that reports the failed assertion through a flag)", 1)
 
 	reach := requestReachable(c)
 	c.Count("request-reachable functions", len(reach))
@@ -121,6 +121,14 @@ func c31(c *core.Ctx) {
 		accessors[c.P.SSAFunc(o)] = true
 	}
 	accessors[accessFn] = true
+	// helpers of Access: Node methods it calls that read the level attributes
+	var accessHelpers []*ssa.Function
+	for _, call := range ssax.Calls(accessFn) {
+		if sf := call.Common().StaticCallee(); sf != nil && sf != c.P.SSAFunc(getAttr) && recvName(sf) == "Node" && len(ssax.CallsTo(sf, getAttr)) > 0 && !accessors[sf] {
+			accessors[sf] = true
+			accessHelpers = append(accessHelpers, sf)
+		}
+	}
 	for _, f := range libFns(c, "server") {
 		if !reach[f] {
 			continue
@@ -239,6 +247,79 @@ func c31(c *core.Ctx) {
 			}
 			_ = from
 			c.Ob("C31.failclosed", key, pos(c, call), !bad, "`return true` reachable with the attribute present but without passing the flag-bit test: "+boolStr(bad), trace(c, tr)...)
+		}
+		// the lookup lives in a helper: a failed uint8 assertion must reach Access as a flag whose false edge cannot
+		// end in `return true`
+		isTrueRet := func(in ssa.Instruction) bool {
+			r, ok := in.(*ssa.Return)
+			if !ok || r.Block() == accessFn.Recover {
+				return false
+			}
+			v, ok := ssax.RetVal(r, 0).(*ssa.Const)
+			return ok && v.Value != nil && v.Value.String() == "true"
+		}
+		for _, h := range accessHelpers {
+			for _, gc := range ssax.CallsTo(h, getAttr) {
+				var ta *ssa.TypeAssert
+				for _, b := range h.Blocks {
+					for _, in := range b.Instrs {
+						if t, ok := in.(*ssa.TypeAssert); ok && fromCall(t.X, gc) {
+							ta = t
+						}
+					}
+				}
+				key := fname(accessFn) + "·level attribute read in " + fname(h) + " present ⇒ flag bit required"
+				if ta == nil || !ta.CommaOk {
+					c.Ob("C31.failclosed", key, pos(c, gc), false, "the helper does not test the Go type of the attribute value with a comma-ok assertion")
+					continue
+				}
+				okIdx := -1
+				for _, r := range ssax.Returns(h) {
+					for i := range r.Results {
+						if ex, ok := ssax.Strip(ssax.RetVal(r, i)).(*ssa.Extract); ok && ex.Tuple == ssa.Value(ta) && ex.Index == 1 {
+							okIdx = i
+						}
+					}
+				}
+				if okIdx < 0 {
+					c.Ob("C31.failclosed", key, pos(c, ta), false, "the helper does not report a failed uint8 assertion to Access")
+					continue
+				}
+				for _, hc := range ssax.Calls(accessFn) {
+					if hc.Common().StaticCallee() != h {
+						continue
+					}
+					flag := result(hc, okIdx)
+					bad, tested := false, false
+					var tr []ssa.Instruction
+					for _, b := range accessFn.Blocks {
+						ifi, ok := b.Instrs[len(b.Instrs)-1].(*ssa.If)
+						if !ok || flag == nil {
+							continue
+						}
+						cond := ssax.Strip(ifi.Cond)
+						falseEdge := b.Succs[1]
+						if u, isNot := cond.(*ssa.UnOp); isNot && u.Op == token.NOT {
+							cond, falseEdge = ssax.Strip(u.X), b.Succs[0]
+						}
+						if cond != ssax.Strip(flag) {
+							continue
+						}
+						tested = true
+						first := falseEdge.Instrs[0]
+						if isTrueRet(first) {
+							bad = true
+						} else if r, t := ssax.Reach(accessFn, first, isTrueRet, nil, nil); r {
+							bad, tr = true, t
+						}
+					}
+					d := "on the false edge of the flag that reports a failed uint8 assertion Access can still reach `return true` (a flag that is also false for an absent attribute cannot fail closed): " + boolStr(bad)
+					if !tested {
+						bad, d = true, "Access never branches on the flag that reports the failed assertion"
+					}
+					c.Ob("C31.failclosed", key, pos(c, hc), !bad, d, trace(c, tr)...)
+				}
+			}
 		}
 	}
 }
